@@ -4,6 +4,7 @@ pub mod c02;
 pub mod c03;
 pub mod c05;
 pub mod c06;
+pub mod c07;
 pub mod c08;
 pub mod c11;
 pub mod c12;
@@ -27,6 +28,7 @@ pub fn dispatch_run(id: &str, run: &mut Run) -> bool {
         "C03" => c03::run(run),
         "C05" => c05::run(run),
         "C06" => c06::run(run),
+        "C07" => c07::run(run),
         "C08" => c08::run(run),
         "C11" => c11::run(run),
         "C12" => c12::run(run),
@@ -49,6 +51,7 @@ pub fn dispatch_replay(id: &str, check: &str, case: Value, run: &mut Run) -> Res
         "C03" => c03::replay(check, case, run),
         "C05" => c05::replay(check, case, run),
         "C06" => c06::replay(check, case, run),
+        "C07" => c07::replay(check, case, run),
         "C08" => c08::replay(check, case, run),
         "C11" => c11::replay(check, case, run),
         "C12" => c12::replay(check, case, run),
